@@ -224,6 +224,22 @@ CHECKS = {
         "bounds": {"quick": "input depth 4 for the invalid-format sweep", "thorough": "input depth 5"},
         "assumptions": COMMON_ASSUME + ["the separator byte is compared only when a separator flag is set (build_unchecked drops it otherwise); an unset exponent base / radix equals the mantissa radix", "infinity_string = None while inf_string is set is not judged (setter docs and is_valid disagree)"],
     },
+    "C09": {
+        "bin": "c09",
+        "crash_is_violation": True,
+        "quick": cfgs(["dflt", "rdxfmt"]),
+        "thorough": cfgs(["dflt", "cmp", "rdxfmt", "cmprdxfmt"]) + cfgs(["rdxfmt"], profile="reldbg"),
+        "rule": "float values (every 32nd / 4th binade x 3 mantissa patterns, extremes, ~25 decimal landmarks with carries and long expansions, zero, every "
+                "5th negated) x formats (STANDARD, 6 decimal writer-flag formats, 7 radix writer-flag formats, every radix of the feature set, mixed-base "
+                "formats) x the write-option product OPT_w (max/min significant digits, Round/Truncate, trim, positive and negative exponent breaks up to "
+                "+-400 / +-1100) x buffer length = the documented bound buffer_size_const (every value) and lengths {0,1,2,longest-1,longest,bound/2,bound-1,"
+                "bound+1} on the value with the longest output; plus default options with FORMATTED_SIZE_DECIMAL and the 12 integer types x radices x "
+                "lengths around the numeral length and FORMATTED_SIZE. Buffers are flush against a trailing and a leading PROT_NONE guard page, the rest of "
+                "the mapping is a canary. Oracle: len >= bound => no panic, returned length <= bound, slice starts at the buffer; shorter => Ok within the "
+                "buffer or panic; never a fault or a modified canary; non-trivial = outputs within 8 bytes of the bound",
+        "bounds": {"quick": "OPT_w level 1 for STANDARD (~6900 option sets), level 0 (~430) for other formats; ~130 values", "thorough": "OPT_w level 2 (~60000 option sets) for STANDARD; ~1600 values; debug-assertion profile"},
+        "assumptions": ["the guard pages detect accesses of >= 1 byte outside the slice; canaries detect writes inside the mapping but outside the slice"],
+    },
 }
 
 # properties not claimed (reason). Kept current by hand.
